@@ -108,7 +108,10 @@ class Engine:
 
     def __init__(self, name: str, url: str = None, tables=DEFAULT_TABLES):
         self.name = name
-        self.engine = sa.create_engine(url or URLS[name])
+        # DuckDB single threaded: its parallel join operators crashed natively (segfault inside _duckdb, DuckDB 1.5) on
+        # tiny outer joins with two inequality conditions when the machine was loaded; the tables here have <= 6 rows
+        kwargs = {'connect_args': {'config': {'threads': 1}}} if name == 'duckdb' else {}
+        self.engine = sa.create_engine(url or URLS[name], **kwargs)
         self.meta = sa.MetaData()
         self.tables = {}
         for t in tables:
@@ -136,6 +139,10 @@ class Engine:
 
     def execute(self, selectable, kinds=None) -> list:
         """Rows of the selectable (normalised when the expected kinds are given). Engine errors propagate."""
+        trace = os.environ.get('VERIF_SQL_TRACE')
+        if trace:  # debugging aid: the statement an engine dies on (native crash) is the last one written
+            with open(os.path.join(trace, f'{self.name}-{os.getpid()}.sql'), 'w') as fh:
+                fh.write(str(selectable.compile(self.engine, compile_kwargs={'literal_binds': True})) + '\n-- data: ' + (self._loaded or ''))
         try:
             rows = self.conn.execute(selectable).fetchall()
         except Exception:
